@@ -7002,12 +7002,22 @@ def c03_enum_type_is_restored(env):
     n = 0
     imps = []
     for i, p in enumerate(paths):
-        if p.end != "return" or not isinstance(p.ret, mir.Agg) or "#d" not in p.ret:
+        if p.end != "return":
             continue
-        H = hyp + p.cond + [p.ret["#d"] == 0]
+        # the result is usually the visitor's own (opaque: may be Ok); paths that built an Err themselves are excluded
+        okc = [p.ret["#d"] == 0] if isinstance(p.ret, mir.Agg) and "#d" in p.ret else []
+        if not any(re.search(r"Visitor<'(de|_)>>::visit_enum::<|::visit_enum::<", c[0]) for c in p.calls):
+            continue  # the enum was refused before the visitor ran (a malformed header): an error path
+        H = hyp + p.cond + okc
+        s_ = z3.Solver()
+        s_.add(*H)
+        if s_.check() != z3.sat:
+            continue
         cur = p.locals["@de"].get(f_et)
-        d = cur.get("#d") if isinstance(cur, mir.Agg) else None
+        d = cur.get("#d") if isinstance(cur, mir.Agg) else (cur if z3.is_expr(cur) else None)
         n += 1
+        if d is not None and z3.is_bv(d) and d.size() != 64:
+            d = z3.ZeroExt(64 - d.size(), d)
         imps.append((i, H, (d == pre) if d is not None else z3.BoolVal(False)))
     # one query per path is affordable here (a few dozen paths)
     for i, H, g in imps:
